@@ -83,6 +83,47 @@ def check_helpers(ctx, oid="C03.4"):
                 "pow_mod_p accepts a base outside [0, p-1]")
 
 
+POINT_FNS = ("bits.ecmath.point_add", "bits.ecmath.point_scalar_mul", "bits.ecmath.point_negate", "bits.bips.bip32.point", "bits.utils.point",
+             "bits.utils.compute_point", "bits.bips.bip340.lift_x", "bits.ecmath.lift_x")
+
+
+def check_operand_ranges(ctx, oid, qualname, pre=(), point_params=(), opaque=(), what="a valid input"):
+    """The field helpers add/sub/mul/div/pow_mod_p REFUSE (ValueError) an operand outside [0, p-1] of the modulus they are
+    called with. On the inputs the property quantifies over a caller must therefore never hand them such an operand: every
+    range check a call of `qualname` can reach is discharged by interval analysis under the facts of its path, the stated
+    preconditions `pre`, and the contract of the point functions (coordinates of a returned point are field elements, 0 <= c <
+    p). Reducing a coordinate mod n with a helper instead of `%` is the typical violation: x(R) may lie in [n, p-1]."""
+    R = ctx.R
+    fi = ctx.fn(qualname)
+    ev = ctx.evaluator(opaque=set(POINT_FNS) - {qualname} | set(opaque))
+    s = ev.run(fi, use_defaults=True)
+    bad, n = [], 0
+    for e in s.exits:
+        if not (e.kind == "raise" and isinstance(e.value, T) and e.value.op == "rangecheck"):
+            continue
+        which, x, p = e.value.args
+        n += 1
+        if not isinstance(p, int):
+            bad.append((which, x, "a modulus that is not a constant (%s)" % tm.show(p)[:40]))
+            continue
+        contract = []
+        for t in tm.subterms(x):
+            if isinstance(t, T) and t.op in ("proj", "idx") and isinstance(t.args[1], int):
+                base = rules.unfz(t.args[0])
+                if (isinstance(base, T) and base.op == "app" and base.args[0] in POINT_FNS) or (isinstance(base, T) and base.op == "param" and base.args[0] in point_params):
+                    contract += [tm.cmp("ge", t, 0), tm.cmp("lt", t, Pp)]
+        facts = [f for f in list(e.facts) + list(pre) + contract if isinstance(f, T)]
+        # the exit's own guard ends with the range disjunction; everything before it are the path conditions
+        facts += [g for g in e.guard[:-1] if isinstance(g, T)]
+        if not ival.within(x, 0, p - 1, facts):
+            bad.append((which, x, "[0, %s]" % ("n-1" if p == N else "p-1" if p == Pp else hex(p - 1))))
+    R.check(oid, "INTERVAL", fi, "%s: every operand handed to a field helper lies in that helper's range on %s (%d range checks reached)" % (fi.node.name, what, n), not bad,
+            "%s passes `%s` to %s, which refuses values outside %s with ValueError: the operand is not confined to that range" % (
+                fi.node.name, tm.show(bad[0][1])[:120] if bad else "", bad[0][0] if bad else "", bad[0][2] if bad else ""),
+            example="a point whose x coordinate lies in [n, p-1] (probability about 2^-128 for honest signatures, constructible by key recovery)")
+    return n
+
+
 def _merge(a, b):
     d = dict(a)
     d.update(b)
@@ -376,6 +417,8 @@ def run(ctx):
     check_scalar_mul(ctx)
     check_keygen(ctx)
     check_privkey_int(ctx)
+    for q_, pp_ in (("bits.ecmath.point_add", ("p1", "p2")), ("bits.ecmath.point_scalar_mul", ("P",))):
+        check_operand_ranges(ctx, "C03.8", q_, point_params=pp_, what="curve points")
     # compute_point = privkey_int(key) * G
     R = ctx.R
     fi = ctx.fn("bits.utils.compute_point")
